@@ -71,7 +71,7 @@ _NT = collections.namedtuple('_NT', ['a', 'b'])
 # level (quoting, escapes, line wrapping, numeric edge cases); all are literally representable.
 LIT_POOL = [
     's', 7, -3, 2.5, -0.0, 1e300, 10**20, True, None, b'by', 'with space', 'qu\'ote"s', 'line\nbreak', ' lead ',
-    (1, 'a'), [1, [2, 'x']], {'k': (1,), 2: None}, '', 'x' * 90, 'back\\slash', 1e-7, -10**15, False, (), [],
+    (1, 'a'), [1, [2, 'x']], {'k': (1,), 2: None}, '', 'x' * 90, 'back\\slash', 1e-7, -10**15, False,
     'long ' * 30, [('t', 1.5), {'n': [None, True]}], 0, 'unicod\u00e9',
 ]
 # ... and values with no literal form (must be omitted from config strings, never printed)
@@ -275,7 +275,7 @@ class World:
         return v[1]
       if v[1] not in self.lits:
         pool = self.lit_pool
-        if v[1].startswith('d_'):
+        if v[1].startswith('d_') or v[1] in ('1', '2'):   # '1' / '2' also serve as dict keys: hashable
           # signature defaults are handed over by Python itself (the same object at every call): a consumer
           # mutating a mutable default is ordinary Python, not something Gin can prevent
           pool = [x for x in self.lit_pool if _immutable(x)]
